@@ -74,6 +74,8 @@ def _view(vals, neighbours, stride=1):
     """interior (possibly strided) view of a larger buffer: 3 words before, 3 after, and every gap word between the
     view's elements are filled from `neighbours`"""
     import numpy as np
+    if stride < 0:
+        return _view(list(reversed(vals)), neighbours, -stride if stride != -1 else 2)[::-1]
     span = len(vals) * stride
     big = np.empty(span + 6, dtype=np.uint64)
     for i in range(len(big)):
@@ -168,6 +170,8 @@ def extra_phase(ctx):
     work += [{"w": "slop", "seed": rng.randint(0, 10 ** 6), "nterms": rng.choice([3, 6]), "len": rng.choice([200, 1200]),
               "ndocs": 3, "q": rng.choice([2, 3, 6]), "slop": rng.choice([3, 10, 40])} for _ in range(max(3, nw // 3))]
     work.append({"w": "slop", "seed": 7, "nterms": 6, "len": 1200, "ndocs": 3, "q": 6, "slop": 40})
+    # arguments that do not fit together: must be rejected, never read or written out of bounds
+    work += [{"w": "contract", "n": k} for k in (1, 2, 5, 40)]
     cases = cases + work
     res = C.run_impl("harness.props.c14_asan", cases, asan, asan=True, timeout=3000)
     reports = 0
